@@ -653,7 +653,9 @@ fn may_require(block: &[Stmt], out: &mut BTreeSet<TaskId>) {
   }
 }
 
-pub fn inject_cycle(case: &mut Case, stream: &[u16]) {
+pub fn inject_cycle(case: &mut Case, stream: &[u16]) { inject_cycle_with(case, stream, false) }
+
+pub fn inject_cycle_with(case: &mut Case, stream: &[u16], force_guard: bool) {
   let mut rd = Rd::new(stream);
   let n = case.prog.n_tasks();
   // may-reach relation over the static require structure
@@ -674,11 +676,15 @@ pub fn inject_cycle(case: &mut Case, stream: &[u16]) {
   let (from, to) = if non_self > 0 && !rd.chance(1, 6) { pairs[rd.pick(non_self)] } else { pairs[non_self + rd.pick(n)] };
   let chk = OCHKS[rd.pick(OCHKS.len())];
   let req = Stmt::Require { task: Target::Fixed(to), chk, var: rd.pick(GVARS) as u8 };
-  let guarded = case.prog.n_src > 0 && rd.chance(1, 2);
+  let guarded = case.prog.n_src > 0 && (rd.chance(1, 2) || force_guard);
   let body = &mut case.prog.tasks[from as usize].body;
   let at = rd.pick(body.len() + 1);
   if guarded {
-    let src = rd.pick(case.prog.n_src as usize) as ResId;
+    let src = if force_guard {
+      let srcs = guard_sources(body, case.prog.n_src);
+      if srcs.is_empty() { return; }
+      srcs[rd.pick(srcs.len())]
+    } else { rd.pick(case.prog.n_src as usize) as ResId };
     let var = 3;
     let cond = match rd.pick(3) {
       0 => Expr::Lt(Box::new(Expr::Var(var)), Box::new(Expr::Const(2))),
@@ -693,8 +699,103 @@ pub fn inject_cycle(case: &mut Case, stream: &[u16]) {
   case.inject = Some(Inject::Cycle { from, to, guarded });
 }
 
+/// Sources that `body` reads nowhere with a checker other than the plain exact one (P5: one checker per target per
+/// execution - the guard read uses the exact checker).
+fn guard_sources(body: &[Stmt], n_src: u8) -> Vec<ResId> {
+  fn clash(block: &[Stmt], r: ResId) -> bool {
+    block.iter().any(|s| match s {
+      Stmt::Read { res: Target::Fixed(x), chk, faulty, .. } => *x == r && (*chk != RChk::Exact || *faulty),
+      Stmt::Read { res: Target::Dyn { base, span, .. }, chk, faulty, .. } => *base <= r && r < *base + *span && (*chk != RChk::Exact || *faulty),
+      Stmt::If { then, els, .. } => clash(then, r) || clash(els, r),
+      _ => false,
+    })
+  }
+  (0..n_src).filter(|r| !clash(body, *r)).collect()
+}
+
+/// Wraps `stmt` into `v3 = read src [Exact]; if cond(v3) { stmt }`, inserted at `at` of `body`.
+fn insert_guarded(body: &mut Vec<Stmt>, at: usize, stmt: Stmt, src: ResId, rd: &mut Rd) {
+  let var = 3;
+  let cond = match rd.pick(3) {
+    0 => Expr::Lt(Box::new(Expr::Var(var)), Box::new(Expr::Const(2))),
+    1 => Expr::Lt(Box::new(Expr::Const(1)), Box::new(Expr::Var(var))),
+    _ => Expr::Eq(Box::new(Expr::Var(var)), Box::new(Expr::Const(1 + rd.pick(4) as u8))),
+  };
+  body.insert(at, Stmt::If { cond, then: vec![stmt], els: vec![] });
+  body.insert(at, Stmt::Read { res: Target::Fixed(src), chk: RChk::Exact, faulty: false, var });
+}
+
+/// A hidden dependency, an overlapping write or a cycle that exists only in some states of source `src`: either the
+/// offending access is guarded, or (hidden/overlap) the designated writer's write is.
+pub fn inject_guarded(case: &mut Case, stream: &[u16]) {
+  let mut rd = Rd::new(stream);
+  if case.prog.n_src == 0 { return; }
+  let kind = rd.pick(3);
+  if kind == 2 {
+    inject_cycle_with(case, &stream[1.min(stream.len())..], true);
+    if case.inject.is_some() { case.inject = Some(Inject::Guarded { kind: "cycle".into(), src: 0 }); }
+    return;
+  }
+  if case.prog.n_tasks() < 2 { case.prog.tasks.push(Script::default()); }
+  let (g, w) = unconditional_generated(&mut case.prog, &mut rd);
+  let n = case.prog.n_tasks();
+  // The offending task must not be able to reach the designated writer in any state: a task that reads g and requires
+  // the writer *afterwards* has a real hidden dependency that pie accepts from scratch (DESIGN P4) - not a domain in
+  // which any property makes a claim.
+  let direct: Vec<BTreeSet<TaskId>> = case.prog.tasks.iter().map(|t| { let mut s = BTreeSet::new(); may_require(&t.body, &mut s); s }).collect();
+  let may_reach = |from: TaskId, to: TaskId| -> bool {
+    let mut seen = BTreeSet::new();
+    let mut stack = vec![from];
+    while let Some(y) = stack.pop() { for z in direct[y as usize].iter() { if *z == to { return true; } if seen.insert(*z) { stack.push(*z); } } }
+    false
+  };
+  fn reads_res(block: &[Stmt], g: ResId) -> bool {
+    block.iter().any(|s| match s {
+      Stmt::Read { res: Target::Fixed(r), .. } => *r == g,
+      Stmt::Read { res: Target::Dyn { base, span, .. }, .. } => *base <= g && g < *base + *span,
+      Stmt::If { then, els, .. } => reads_res(then, g) || reads_res(els, g),
+      _ => false,
+    })
+  }
+  let readers: Vec<TaskId> = (0..n as TaskId).filter(|t| reads_res(&case.prog.tasks[*t as usize].body, g)).collect();
+  let cands: Vec<TaskId> = (0..n as TaskId).filter(|t| *t != w && !may_reach(*t, w)).filter(|t| {
+    // A second writer must not read g itself (P2), and no reader of g may require it after reading (P4 again: in the
+    // states in which it is the only writer, such a reader has read g before requiring its generator).
+    kind != 1 || (!readers.contains(t) && !readers.iter().any(|y| may_reach(*y, *t)))
+  }).collect();
+  if cands.is_empty() { return; }
+  let x = cands[rd.pick(cands.len())];
+  let guard_writer_side = rd.chance(1, 3);
+  let guarded_task = if guard_writer_side { w } else { x };
+  let srcs = guard_sources(&case.prog.tasks[guarded_task as usize].body, case.prog.n_src);
+  if srcs.is_empty() { return; }
+  let src = srcs[rd.pick(srcs.len())];
+  let offending = if kind == 1 {
+    let via = if rd.chance(1, 3) { Via::WrittenTo } else { Via::Ctx };
+    Stmt::Write { res: Target::Fixed(g), chk: RChk::Exact, faulty: false, val: Expr::Const(rd.pick(4) as u8), via }
+  } else {
+    Stmt::Read { res: Target::Fixed(g), chk: RCHKS[rd.pick(RCHKS.len())], faulty: false, var: rd.pick(3) as u8 }
+  };
+  if guard_writer_side {
+    // The designated writer writes g only in some states; the offending access is unconditional.
+    let body = &mut case.prog.tasks[w as usize].body;
+    if let Some(pos) = body.iter().position(|s| matches!(s, Stmt::Write { res: Target::Fixed(r), .. } if *r == g)) {
+      let wr = body.remove(pos);
+      insert_guarded(body, pos, wr, src, &mut rd);
+    }
+    let body = &mut case.prog.tasks[x as usize].body;
+    let at = rd.pick(body.len() + 1);
+    body.insert(at, offending);
+  } else {
+    let body = &mut case.prog.tasks[x as usize].body;
+    let at = rd.pick(body.len() + 1);
+    insert_guarded(body, at, offending, src, &mut rd);
+  }
+  case.inject = Some(Inject::Guarded { kind: if kind == 1 { "overlap".into() } else { "hidden".into() }, src });
+}
+
 #[derive(Clone, Copy, Debug, PartialEq, Eq)]
-pub enum InjectKind { Hidden, Overlap, Cycle }
+pub enum InjectKind { Hidden, Overlap, Cycle, Guarded }
 
 /// `plain_share` out of 10 cases stay un-injected (negative half).
 pub fn injected_case_strategy(cfg: GenCfg, kind: InjectKind, plain_share: u32) -> impl Strategy<Value=Case> {
@@ -705,6 +806,7 @@ pub fn injected_case_strategy(cfg: GenCfg, kind: InjectKind, plain_share: u32) -
         InjectKind::Hidden => inject_hidden(&mut case, &inj),
         InjectKind::Overlap => inject_overlap(&mut case, &inj),
         InjectKind::Cycle => inject_cycle(&mut case, &inj),
+        InjectKind::Guarded => inject_guarded(&mut case, &inj),
       }
       // Histories were built for the original task count; roots stay valid (tasks are only added).
     }
